@@ -91,7 +91,7 @@ Proof.
     apply c09_mapM_Forall2 in E. rewrite Hfs in E. destruct (c09_Forall2_in_r _ _ _ _ E Hm) as (f' & Hf' & Em).
     apply in_map_iff in Hf' as (f & <- & Hf). destruct (Hmk f Hf) as (Htp & Hpos & Hty & Hown).
     rewrite <- Hpos in Hr. eapply sc_refs; [exact Htp| |exact Hown|exact Hr].
-    unfold c09_recon_type. rewrite Hpos, Hty. exact (sc_member_names cfg _ _ _ Em).
+    unfold c09_recon_type. rewrite Hty. exact (sc_member_names cfg _ _ _ Em).
 Qed.
 
 Lemma sc_has_def_1 g d en : In d g -> c09_is_def d = true -> d_name d = defname en -> has_def g en.
